@@ -235,6 +235,19 @@ class Impl:
             if api == "units":
                 r = u.parse_units(op[1], as_delta=op[2], case_sensitive=op[3])
                 return ("ok", tuple(sorted((k, F(v)) for k, v in r._units.items())))
+            if api == "entry":        # the container a unit STRING denotes on the conversion side
+                from pint.util import to_units_container
+                r = to_units_container(op[1], u)
+                return ("ok", tuple(sorted((k, F(v)) for k, v in r.items())))
+            if api in ("roots", "roots_u", "base", "base_u"):   # get_root_units / get_base_units of the string / of the parsed Unit
+                arg = op[1] if api in ("roots", "base") else u.parse_units(op[1])
+                f, b = (u.get_root_units if api.startswith("roots") else u.get_base_units)(arg)
+                fx = "float" if isinstance(f, float) else (None if f is None else F(f))
+                return ("ok", (fx, tuple(sorted((k, F(v)) for k, v in b._units.items()))))
+            if api == "qto":          # Quantity(1, parse_units(text)).to(text)
+                q = u.Quantity(F(1), u.parse_units(op[1])).to(op[1])
+                m = q.magnitude
+                return ("ok", ("float" if isinstance(m, float) else F(m), tuple(sorted((k, F(v)) for k, v in q._units.items()))))
             if api == "getattr":
                 r = getattr(u, op[1])
                 return ("ok", tuple(sorted((k, F(v)) for k, v in r._units.items())))
@@ -307,6 +320,8 @@ def coq_op(op, o):
     if api == "all":
         return f"OAll {cstr(op[2])} {coq_pairs(o[0][1])} {coq_ures(o[1], cstr)} {coq_ures(o[2], cstr)}"
     toks = c_toks(lex_ok(op[1]) or [])
+    if api == "entry":        # modelled by the same function as parse_units with the registry's settings
+        return f"OUnits {cstr(op[1])} {toks} None None {coq_ures(o, lambda v: c_uc(dict(v)))}"
     if api == "units":
         return (f"OUnits {cstr(op[1])} {toks} {coq_ob(op[2])} {coq_ob(op[3])} "
                 f"{coq_ures(o, lambda v: c_uc(dict(v)))}")
@@ -857,6 +872,71 @@ def run(ck):
     add_fresh_cases(coq_cfg(True, False, symexact), dops, "fresh compound, default_as_delta=False")
     ck.count("compound expressions (as_delta None/True/False; default_as_delta=False registry)", nc)
     phase("compound")
+
+    # ---------------------------------------------------------------- (E2) unit strings on the conversion side
+    # get_root_units / get_base_units / convert / Quantity.to / … take unit strings through
+    # util.to_units_container; they must read them with the REGISTRY's settings (case_sensitive,
+    # default_as_delta) exactly like parse_units does — in every configuration
+    configs = [("default", fresh, CFG), ("case_sensitive=False", ci_reg, coq_cfg(False, True, symexact)),
+               ("default_as_delta=False", dreg, coq_cfg(True, False, symexact)),
+               ("case_sensitive=False,default_as_delta=False", Impl(case_sensitive=False, default_as_delta=False),
+                coq_cfg(False, False, symexact))]
+    ne = 0
+    for label, reg, cfg in configs:
+        casei = "case_sensitive=False" in label
+        texts = []
+        for _ in range(1500 if thorough else 260):
+            r = rng.random()
+            if r < 0.45:
+                text, factors, ok = compound()
+                if not ok:
+                    continue
+            else:
+                base_s = rng.choice(idents) if r < 0.8 else rng.choice(pk_all) + rng.choice(idents)
+                text = rng.choice(sorted(variants(base_s)) + [base_s]) if casei and rng.random() < 0.8 else base_s
+                if rng.random() < 0.3:
+                    w2 = rng.choice(nonmult + idents[:50])
+                    text = rng.choice([f"{text}/{w2}", f"{w2}*{text}", f"{text}**2"])
+            if lex_ok(text) is None or any(t.lower() == "nan" for k, t in lex_ok(text) if k == "name"):
+                continue
+            if casei and not all(casei_domain(t) and len(reg.call(("parse", None, t))[1]) <= 1
+                                 for k, t in lex_ok(text) if k == "name"):
+                continue          # set-order dependent winner
+            texts.append(text)
+        eops = []
+        for text in texts:
+            ou = reg.call(("units", text, None, None))
+            reg.reset()
+            oe = reg.call(("entry", text))
+            reg.reset()
+            eops.append((("entry", text), oe))
+            rp = {"configuration": label, "text": text, "parse_units": ou}
+            if oe != ou:
+                fails.add(f"entry-point-settings:{label}:{text}",
+                          f"registry({label}): to_units_container({text!r}, ureg) = {oe} but parse_units({text!r}) = {ou} — the "
+                          f"conversion side does not read the string with the registry's settings", {**rp, "to_units_container": oe})
+            # ("delta_" + a logarithmic unit names no unit: what pint then does is not C08's business)
+            known_keys = (ou[0] != "ok" or all(not k.startswith("delta_") or k in T.units for k, _ in ou[1])) \
+                and "dimensionless" not in text       # get_base_units('m*dimensionless') raises KeyError('') on the clean tree
+            for a, b, what in ((("roots", "roots_u", "get_root_units"), ("base", "base_u", "get_base_units")) if known_keys else ()):
+                x = reg.call((a, text))
+                reg.reset()
+                y = reg.call((b, text))
+                reg.reset()
+                if x != y:
+                    fails.add(f"entry-point-{what}:{label}:{text}",
+                              f"registry({label}): {what}({text!r}) = {x} but {what}(parse_units({text!r})) = {y}", {**rp, "string": x, "unit": y})
+            if ou[0] == "ok" and ou[1] and all(T.units[k].mult for k, _ in ou[1] if k in T.units) and all(k in T.with_lazy or True for k, _ in ou[1]):
+                q = reg.call(("qto", text))
+                reg.reset()
+                if q[0] == "ok" and q[1][0] != "float" and q != ("ok", (F(1), ou[1])) or q[0] == "err" and q[1] in ("KUndefined",):
+                    fails.add(f"entry-point-Quantity.to:{label}:{text}",
+                              f"registry({label}): Quantity(1, parse_units({text!r})).to({text!r}) = {q}, expected 1 {ou[1]}", {**rp, "to": q})
+            ne += 1
+            ck.case(key=("entry", label, text), nontrivial=label != "default", n=6)
+        add_fresh_cases(cfg, eops, f"conversion-side strings, registry({label})")
+    ck.count("unit strings through to_units_container / get_root_units / get_base_units / Quantity.to (4 configurations)", ne)
+    phase("entry points")
 
     # ---------------------------------------------------------------- (F) sequences: answers after earlier lookups
     pnames = [n for n in T.pdef if n]
